@@ -56,7 +56,7 @@ static int corpus_load(void) {
     corpus_loaded = 1; return 0;
 }
 
-enum { CP_CROSS, CP_EMAIL, CP_LOCAL, CP_DOMAIN, CP_LITERAL, CP_TLD, CP_IDN, CP_BYTES, CP_LONG, CP_LONGIDN, CP_ALTDOT, CP_LABELLEN, CP_MAXLIT, CP_LPXDOM, CP_WHOLEDOM, CP_DEPTH, CP_EMBED, CP_SUBST, CP_SHORTLAB, CP_POSN, CP_WRAP, CP_SCALARS, CP_N };
+enum { CP_CROSS, CP_EMAIL, CP_LOCAL, CP_DOMAIN, CP_LITERAL, CP_TLD, CP_IDN, CP_BYTES, CP_LONG, CP_LONGIDN, CP_ALTDOT, CP_LABELLEN, CP_MAXLIT, CP_LPXDOM, CP_WHOLEDOM, CP_DEPTH, CP_EMBED, CP_SUBST, CP_SHORTLAB, CP_POSN, CP_WRAP, CP_EDIT, CP_SCALARS, CP_N };
 static const char *corpus_name(int i) {
     static const char *n[] = {
         "cross: all strings over {a 1 . - @ [ ] : SP ( 0x01 #}",
@@ -80,6 +80,7 @@ static const char *corpus_name(int i) {
         "shortlab: every label of 1-2 characters and every 3-character label starting with a digit over [a-z0-9-], lower and upper case, in 4 positions",
         "posn: local parts of every length 1-66 (quick: 17 lengths around 1, 8, 16, 32, 64) filled with one letter, every byte 0x01-0xFF at every position",
         "wrap: every byte in front of and every byte behind 5 complete addresses (all 257 x 257 pairs incl. none), plus bracket/quote/scheme wrappers",
+        "edit: every deletion of 1-3 adjacent bytes, every doubled byte and every swap of two adjacent bytes in 16 complete addresses",
         "scalars: every non-ASCII Unicode scalar value as an atom character, quoted (alone, after and before a space) and in a domain label" };
     return n[i];
 }
@@ -115,6 +116,7 @@ static long corpus_shards(int i) {
     case CP_SHORTLAB: return 37;
     case CP_POSN: return CORPUS_DEEP ? 66 : 17;
     case CP_WRAP: return 5 * 257 + 1;
+    case CP_EDIT: return 16;
     case CP_WHOLEDOM: return CORPUS_DEEP ? 0x110000 / 0x400 : 15;
     case CP_SCALARS: return 0x110000 / 0x1000;
     }
@@ -156,6 +158,11 @@ static void corpus_run(int ph, long shard, emit_fn emit, void *arg) {
         if (shard == ns) {   /* structured dotted quads */
             static const char *const O[] = { "0", "1", "10", "99", "255", "256", "001", "" };
             for (int a = 0; a < 8; a++) for (int b = 0; b < 8; b++) for (int c = 0; c < 8; c++) for (int d = 0; d < 8; d++) c_emit_str(emit, arg, "x@[%s.%s.%s.%s]", O[a], O[b], O[c], O[d]);
+            /* octets whose value only fits wider integers, and wraps to a small one in a narrow accumulator (2^8+k, 2^16+k, 2^31+k, 2^32+k, 2^64+k) */
+            { static const char *const W[] = { "256", "257", "511", "65536", "65537", "65791", "2147483648", "2147483649", "4294967295", "4294967296", "4294967297", "4294967551", "8589934593",
+                  "18446744073709551616", "18446744073709551617", "18446744073709551871", "00000000000000000000001", "0000000000255" };
+              for (unsigned w = 0; w < sizeof W / sizeof W[0]; w++) for (int pos = 0; pos < 4; pos++) { const char *o[4] = { "1", "2", "3", "4" }; o[pos] = W[w];
+                  c_emit_str(emit, arg, "x@[%s.%s.%s.%s]", o[0], o[1], o[2], o[3]); c_emit_str(emit, arg, "x@[IPv6:::ffff:%s.%s.%s.%s]", o[0], o[1], o[2], o[3]); c_emit_str(emit, arg, "x@[IPv6:1:2:3:4:5:6:%s.%s.%s.%s]", o[0], o[1], o[2], o[3]); } }
             for (int v = 0; v <= 300; v++) { c_emit_str(emit, arg, "x@[%d.2.3.4]", v); c_emit_str(emit, arg, "x@[1.2.3.%d]", v); c_emit_str(emit, arg, "x@[1.2.%d]", v); c_emit_str(emit, arg, "x@[1.2.3.4.%d]", v); }
         } else {             /* structured IPv6 */
             static const char *const TG[] = { "IPv6:", "ipv6:", "", "IPv4:", "foo:" }; static const char *const TL[] = { "", "1.2.3.4", "0.2.3.4", "1.2.3.256", "1.2.3" };
@@ -339,6 +346,16 @@ static void corpus_run(int ph, long shard, emit_fn emit, void *arg) {
         }
         const char *t = B[shard / 257]; size_t n = strlen(t); int pre = (int)(shard % 257); unsigned char u[64];
         for (int suf = 0; suf < 257; suf++) { size_t l = 0; if (pre) u[l++] = (unsigned char)pre; memcpy(u + l, t, n); l += n; if (suf) u[l++] = (unsigned char)suf; emit(u, l, arg); }
+    } break;
+    case CP_EDIT: {        /* a keyword or separator that is SHORTENED (IPv:, IP6:, exampe.com, tst) or doubled is only reached by deletion / duplication, not by substitution */
+        static const char *const B[16] = { "x@[IPv6:::1]", "x@[ipv6:1:2:3:4:5:6:7:8]", "x@[IPv6:1:2:3:4:5:6:1.2.3.4]", "x@[192.168.100.200]", "x@[::1.2.3.4]", "\"a b\"@c.de", "a.b@c-d.ef", "x@xn--p1ai.com",
+            "x@example.com", "x@a.test", "\"a\\\"b\".c@d.org", "x@mail.localhost", "x@\xd0\xb6.\xd1\x80\xd1\x84", "\xd0\xb6@a.museum", "x@a.invalid", "first.last@sub.example.org" };
+        const char *t = B[shard]; size_t n = strlen(t); unsigned char u[96];
+        for (size_t p = 0; p < n; p++) {
+            for (size_t k = 1; k <= 3 && p + k <= n; k++) { memcpy(u, t, p); memcpy(u + p, t + p + k, n - p - k); emit(u, n - k, arg); }          /* deletion of k bytes at p */
+            memcpy(u, t, p + 1); u[p + 1] = (unsigned char)t[p]; memcpy(u + p + 2, t + p + 1, n - p - 1); emit(u, n + 1, arg);                 /* byte doubled */
+            if (p + 1 < n && t[p] != t[p + 1]) { memcpy(u, t, n); u[p] = (unsigned char)t[p + 1]; u[p + 1] = (unsigned char)t[p]; emit(u, n, arg); }   /* neighbours swapped */
+        }
     } break;
     case CP_SCALARS: {
         unsigned long lo = (unsigned long)shard * 0x1000, hi = lo + 0x1000;
